@@ -36,6 +36,7 @@ TIERS = {
 PRELUDE_STD = '''#![allow(dead_code, unused_variables, unused_mut, non_snake_case, non_camel_case_types, unused_imports, private_interfaces)]
 #[derive(Debug, Default)] pub struct Ctx { pub id: u32 }
 #[derive(Debug)] pub struct Pay { pub id: u32 }
+#[derive(Debug, Clone)] pub struct PayC { pub id: u32 }
 #[derive(Debug, Default, Clone, PartialEq)] pub struct D(pub u32);
 pub fn assert_send<T: Send>(_: T) {}
 pub fn is_machine_state<T: state_machines::MachineState>() {}
@@ -53,7 +54,7 @@ def hooks_impl(d, info):
     afn = 'async fn' if asy else 'fn'
     L = [f'{hdr} {{']
     for name, (kind, payload) in sorted(T.hooks_used(d).items()):
-        parg = ', _p: &Pay' if payload else ''
+        parg = f', _p: &{T.payload_type(d)}' if payload else ''
         if kind in ('guards', 'unless'):
             L.append(f'  {afn} {name}(&self, _ctx: &{ctxty}{parg}) -> bool {{ true }}')
         elif kind in ('before', 'after'):
@@ -81,12 +82,12 @@ def pos_module(idx, d, text, info, nostd):
         evp = {e['name']: e for e in info['events']}
         for k, e in enumerate(info['edges']):
             ev = evp[e['event']]
-            arg = 'Pay { id: 0 }' if ev['payload'] else ''
+            arg = (T.payload_type(d) + ' { id: 0 }') if ev['payload'] else ''
             L.append(f'fn send_{k}(m: {MT(e["src"])}) {{ assert_send(m.{ev["method"]}({arg})); }}')
         if info['dynamic'] and info['events']:
             DT = info['dynname'] if conc else f"{info['dynname']}<Ctx>"
             ev = info['events'][0]
-            arg = '(Pay { id: 0 })' if ev['payload'] else ''
+            arg = ('(' + T.payload_type(d) + ' { id: 0 })') if ev['payload'] else ''
             L.append(f'fn send_h(d: &mut {DT}) {{ assert_send(d.handle({info["eventenum"]}::{ev["pascal"]}{arg})); }}')
     L.append('}')
     return '\n'.join(L)
@@ -111,7 +112,7 @@ def probe_module(idx, d, text, info):
     n = 0
     for s in states:
         for ev in info['events']:
-            arg = 'Pay { id: 0 }' if ev['payload'] else ''
+            arg = (T.payload_type(d) + ' { id: 0 }') if ev['payload'] else ''
             ok = (s, ev['name']) in edges
             L.append(f'fn pm{n}(m: {MT(s)}) {{ let _ = m.{ev["method"]}({arg}); }}')
             probes.append((len(L) - 1, 'method', ok, 'E0599', f'{ev["method"]} on {M}<{s}>'))
